@@ -6,9 +6,10 @@
    (reflexivity); (3) in the binary64 model a restart that performs no iteration reports the pairs of the history it rebuilt;
    (4) the laws fail in binary64 by one rounding (witness).  The size of the rounding gap and the continuation (next iterate)
    are explored by the search and compared bit for bit with the model by the driver correspondence on restart chains. *)
-From Coq Require Import List ZArith Bool String Floats.PrimFloat.
+From Coq Require Import List ZArith Bool String Lia Floats.PrimFloat.
+From LBFGSB Require Model.Dcsrch Model.DriverDcs.
 From LBFGSB Require Import Base.Res Model.SF Model.FloatVec Model.Driver Model.Restore Generated.Memory
-  Proofs.RestoreProofs Proofs.RestoreInst Proofs.DriverShape Proofs.DriverRestart.
+  Proofs.RestoreProofs Proofs.RestoreInst Proofs.DriverShape Proofs.DriverRestart Proofs.DriverRestartState Generated.StopTests.
 Import ListNotations.
 Open Scope Z_scope.
 
@@ -71,7 +72,94 @@ Example C06_float_not_exact :
   veqb (hd [] (FloatVec.diffs (Driver.restore_points [1%float] [[0.1%float]] ++ [[1%float]]))) [0.1%float] = false.
 Proof. vm_compute. reflexivity. Qed.
 
+(* (5) the state with which a restarted run enters its loop IS the state the interrupted run stopped in - every field except the
+   message placeholder and the memo cell of the function wrapper - when the history is rebuilt exactly (restore c ck = the stored
+   points, which (1) proves over any abelian group) AND the newest stored point of the interrupted run was its current iterate
+   (its last update was accepted).  The second hypothesis is exactly what the open finding memory-newest-entry-not-x violates. *)
+Theorem C06_restart_state : forall U K c (s : lst) ck, checkpoint c = Some ck -> r_nit ck = s_nit s -> u_upd U = None ->
+  forall X0 G0 : list vec, s_X s = X0 ++ [s_x s] -> s_G s = G0 ++ [s_g s] -> X0 <> [] ->
+    Z.of_nat (List.length (s_X s)) <= maxcor c + 1 -> List.length G0 = List.length X0 ->
+    curvature_ok K c (s_x s) (s_g s) (last X0 []) (last G0 []) = true -> s_mats s = Some (s_X s, s_G s) ->
+    Driver.restore c ck = (X0, G0) ->
+    forall t3, first_state U K c (s_x s) (s_f s) (s_g s) (snd (restored c)) t3 =
+               mklst (s_x s) (s_f s) (s_g s) (s_X s) (s_G s) (s_mats s) (s_nit s) MStart false 2 t3.
+Proof. exact restart_state. Qed.
+
+(* (6) ... and from that state the restarted run IS the interrupted run continued - same events, same final loop state, for any
+   remaining budget - as soon as the next line search evaluates a point other than the restart point (its first trial point,
+   whenever the line-search routine accepts the START call): the only difference between the two states, the memo cell of
+   the function wrapper, disappears at the first evaluation. *)
+Theorem C06_restart_continues : forall U K c (s : lst) ck (X0 G0 : list vec) t3 stp1 fuel ft gt,
+  checkpoint c = Some ck -> r_nit ck = s_nit s -> u_upd U = None ->
+  s_X s = X0 ++ [s_x s] -> s_G s = G0 ++ [s_g s] -> X0 <> [] ->
+  Z.of_nat (List.length (s_X s)) <= maxcor c + 1 -> List.length G0 = List.length X0 ->
+  curvature_ok K c (s_x s) (s_g s) (last X0 []) (last G0 []) = true -> s_mats s = Some (s_X s, s_G s) ->
+  Driver.restore c ck = (X0, G0) ->
+  s_msg s = MStart -> s_succ s = false -> s_warn s = 2 ->       (* the interrupted run was still going on *)
+  same_counts (s_sf s) t3 ->                                     (* the restarted wrapper starts from the checkpoint's counters *)
+  let d := direction K s in
+  let stpmax := if s_nit s =? 0 then fone else maxstep (s_x s) d (lb c) (ub c) (max_steplength c) in
+  let stp0 := if (s_nit s =? 0) && negb (is_boxed c) then StopTests.pymin (div fone (sqrt (vdot K d d))) stpmax else fone in
+  dcs K (ftol_ls c, gtol_ls c, xtol_ls c, stpmax) [(stp0, s_f s, vdot K (s_g s) d)] = (stp1, TFG) ->
+  (0 < Z.to_nat (ls_cap c s))%nat ->
+  veqb (vclip (vaxpy (s_x s) stp1 d) (lb c) (ub c)) (SF.sx _ _ _ _ (s_sf s)) = false ->
+  veqb (vclip (vaxpy (s_x s) stp1 d) (lb c) (ub c)) (SF.sx _ _ _ _ t3) = false ->
+  guard c gt s = true ->
+  loop U K c fuel ft gt (first_state U K c (s_x s) (s_f s) (s_g s) (snd (restored c)) t3) = loop U K c fuel ft gt s.
+Proof. exact restart_continues. Qed.
+
+(* the fields of a returned result that a restart reads are those of the last loop state *)
+Theorem C06_result_fields : forall c gt (s : lst), let r := snapshot (classify c gt s) (s_nit (classify c gt s)) in
+  r_x r = s_x s /\ r_fun r = s_f s /\ r_jac r = s_g s /\ r_nit r = s_nit s /\
+  r_nfev r = SF.nfev _ _ _ _ (s_sf s) /\ r_njev r = SF.ngev _ _ _ _ (s_sf s) /\ r_sk r = FloatVec.diffs (s_X s) /\ r_yk r = FloatVec.diffs (s_G s).
+Proof. exact result_fields. Qed.
+
+(* Non-vacuity of (5), (6): f(x) = x^2 on [-5, 5] from x0 = 1, a kernel that halves x, the DCSRCH model as line-search routine.
+   The run with maxiter = 1 stops in state sE1 (x = 0.5, one pair) and returns ckE; the restart from ckE with maxiter = 4
+   enters its loop with sE1 (up to the memo cell) and its loop IS the loop of the uninterrupted run continued from sE1. *)
+Definition UE : user :=
+  mkuser (fun x => Res.Ok (mul (hd 0%float x) (hd 0%float x))) (fun x => Res.Ok [mul 2%float (hd 0%float x)]) None None None
+         (Res.Ok 0%float) (Res.Ok 0%float) false (fun _ => []) (fun _ _ _ => Res.Ok []).
+Definition KE : kern :=
+  mkkern (fun x _ _ _ => map (fun v => mul v 0.5%float) x) (DriverDcs.dcs_model Dcsrch.sq_mul) (fun a b => mul (hd 0%float a) (hd 0%float b)).
+Definition gtE : float := 0x1.0c6f7a0b5ed8dp-20%float.
+Definition cE (mi : Z) (x0 : float) (ck : option result) : cfg :=
+  mkcfg [x0] [(-5)%float] [5%float] 3 None 0%float (TolConst gtE) mi 100 20 1e8%float
+        0x1.0624dd2f1a9fcp-10%float 0x1.ccccccccccccdp-1%float 0x1.999999999999ap-4%float 0x1.fb4c5b3a1b5bcp-53%float ck.
+Definition sE0 : lst :=
+  first_state UE KE (cE 1 1%float None) [1%float] 1%float [2%float] [] (SF.mk _ _ _ _ [1%float] (Some 1%float) (Some [2%float]) 1 1 fone).
+Definition sE1 : lst := match loop UE KE (cE 1 1%float None) 1 None gtE sE0 with (Res.Ok s, _) => s | _ => sE0 end.
+Definition ckE : result := snapshot (classify (cE 1 1%float None) gtE sE1) 1.
+Definition tE3 : SF.st vec float vec float := SF.set_counters _ _ _ _ 2 2 (SF.init vec float vec float [0.5%float] fone).
+Example C06_example :
+  (* the interrupted run returns ckE ... *)
+  fst (run UE KE (cE 1 1%float None)) = Res.Ok ckE /\
+  (* ... and the loop of the restart (maxiter 4) from ckE is the loop of the uninterrupted run continued from sE1 *)
+  loop UE KE (cE 4 0.5%float (Some ckE)) 3 None gtE
+       (first_state UE KE (cE 4 0.5%float (Some ckE)) (s_x sE1) (s_f sE1) (s_g sE1) (snd (restored (cE 4 0.5%float (Some ckE)))) tE3)
+  = loop UE KE (cE 4 0.5%float (Some ckE)) 3 None gtE sE1 /\
+  (* which performs iterations (the final iterate is 1/16 after 3 more halvings) *)
+  (exists s tr, loop UE KE (cE 4 0.5%float (Some ckE)) 3 None gtE sE1 = (Res.Ok s, tr) /\ s_x s = [0.0625%float] /\ s_nit s = 4).
+Proof.
+  split; [vm_compute; reflexivity|]. split.
+  - apply (restart_continues UE KE (cE 4 0.5%float (Some ckE)) sE1 ckE [[1%float]] [[2%float]] tE3 0x1p+0%float 3 None gtE);
+      try (vm_compute; reflexivity); try (vm_compute; discriminate); try (vm_compute; lia).
+    + vm_compute. repeat split.
+  - eexists. eexists. split; [vm_compute; reflexivity|]. split; reflexivity.
+Qed.
+
+(* the checkpoint format cannot tell whether the newest stored point is the current iterate: two loop states with different
+   memories (the second as after a rejected update) have the same result *)
+Theorem C06_checkpoint_cannot_tell :
+  let s1 := mk_state [[0%float]; [1%float]] [[2%float]; [4%float]] [1%float] [4%float] in
+  let s2 := mk_state [[3%float]; [4%float]] [[5%float]; [7%float]] [1%float] [4%float] in
+  snapshot s1 1 = snapshot s2 1 /\ s_X s1 <> s_X s2 /\ last (s_X s1) [] = s_x s1 /\ last (s_X s2) [] <> s_x s2.
+Proof. exact checkpoint_cannot_tell. Qed.
+
+
 Print Assumptions C06_restore_exact.
 Print Assumptions C06_no_iteration_pairs.
 Print Assumptions C06_model_is_instance.
 Print Assumptions C06_restart_without_iteration.
+Print Assumptions C06_restart_state.
+Print Assumptions C06_restart_continues.
